@@ -203,6 +203,8 @@ func pathString(p []keyElem) string {
 }
 
 type tables struct {
+	// while a value handed to a literal table row's setter is followed: table -> row+1
+	rowCtx map[*ssa.Alloc]int
 	w    *World
 	pr   *prover
 	pw   map[*ssa.Function]*pwInfo
@@ -274,24 +276,68 @@ func producerOf(v ssa.Value) *ssa.Function {
 // literalTableRows: key is field kf of an element of a local slice literal of structs (the loop variable of a range
 // over it): returns, per row of the literal, the values stored into its fields.
 func literalTableRows(key ssa.Value) (rows []map[int]ssa.Value, kf int, ok bool) {
+	rows, kf, _, ok = literalTableRowsOf(key)
+	return rows, kf, ok
+}
+
+type rowSetterArg struct {
+	arg   ssa.Value
+	table *ssa.Alloc
+	row   int
+}
+
+// rowSetterArgs: p is a parameter of a closure kept in a row of a literal table and called through the ranged row
+// (row.set(v)); returns what each such call hands over for p, with the table and the closure's row.
+func rowSetterArgs(p *ssa.Parameter) []rowSetterArg {
+	fn := p.Parent()
+	if fn == nil || fn.Parent() == nil {
+		return nil
+	}
+	pi := -1
+	for i, q := range fn.Params {
+		if q == p {
+			pi = i
+		}
+	}
+	var out []rowSetterArg
+	for _, call := range callsIn(fn.Parent()) {
+		cc := call.Common()
+		if cc.IsInvoke() || cc.StaticCallee() != nil || pi < 0 || pi >= len(cc.Args) {
+			continue
+		}
+		rows, sf, table, ok := literalTableRowsOf(cc.Value)
+		if !ok {
+			continue
+		}
+		for j, row := range rows {
+			if mc, isMC := unwrap(row[sf]).(*ssa.MakeClosure); isMC && mc.Fn == ssa.Value(fn) {
+				out = append(out, rowSetterArg{arg: cc.Args[pi], table: table, row: j})
+			}
+		}
+	}
+	return out
+}
+
+// literalTableRowsOf: as literalTableRows, and the table's array cell (its identity).
+func literalTableRowsOf(key ssa.Value) (rows []map[int]ssa.Value, kf int, table *ssa.Alloc, ok bool) {
 	fld, isField := key.(*ssa.Field)
 	var elemAddr ssa.Value
 	if isField {
 		ld, isLd := fld.X.(*ssa.UnOp)
 		if !isLd || ld.Op != token.MUL {
-			return nil, 0, false
+			return nil, 0, nil, false
 		}
 		elemAddr = ld.X
 		kf = fld.Field
 	} else if ld, isLd := key.(*ssa.UnOp); isLd && ld.Op == token.MUL {
 		fa, isFA := ld.X.(*ssa.FieldAddr)
 		if !isFA {
-			return nil, 0, false
+			return nil, 0, nil, false
 		}
 		elemAddr = fa.X
 		kf = fa.Field
 	} else {
-		return nil, 0, false
+		return nil, 0, nil, false
 	}
 	// the loop variable is a local that receives the whole element: prop := *(&table[i])
 	if al, isAl := elemAddr.(*ssa.Alloc); isAl {
@@ -303,7 +349,7 @@ func literalTableRows(key ssa.Value) (rows []map[int]ssa.Value, kf int, ok bool)
 	}
 	ia, isIA := elemAddr.(*ssa.IndexAddr)
 	if !isIA {
-		return nil, 0, false
+		return nil, 0, nil, false
 	}
 	var arr ssa.Value
 	switch x := ia.X.(type) {
@@ -312,15 +358,15 @@ func literalTableRows(key ssa.Value) (rows []map[int]ssa.Value, kf int, ok bool)
 	case *ssa.Alloc:
 		arr = x
 	default:
-		return nil, 0, false
+		return nil, 0, nil, false
 	}
 	al, isAlloc := arr.(*ssa.Alloc)
 	if !isAlloc {
-		return nil, 0, false
+		return nil, 0, nil, false
 	}
 	at, isArr := types.Unalias(al.Type().(*types.Pointer).Elem()).Underlying().(*types.Array)
 	if !isArr {
-		return nil, 0, false
+		return nil, 0, nil, false
 	}
 	byRow := map[int64]map[int]ssa.Value{}
 	for _, r := range *al.Referrers() {
@@ -331,7 +377,7 @@ func literalTableRows(key ssa.Value) (rows []map[int]ssa.Value, kf int, ok bool)
 				if x == ia {
 					continue
 				}
-				return nil, 0, false
+				return nil, 0, nil, false
 			}
 			j := c.Int64()
 			for _, r2 := range *x.Referrers() {
@@ -349,11 +395,11 @@ func literalTableRows(key ssa.Value) (rows []map[int]ssa.Value, kf int, ok bool)
 					// whole-struct store of a composite literal built in a local: *(&table[j]) = *complit
 					ld, isLd := y.Val.(*ssa.UnOp)
 					if y.Addr != ssa.Value(x) || !isLd || ld.Op != token.MUL {
-						return nil, 0, false
+						return nil, 0, nil, false
 					}
 					cl, isAl := ld.X.(*ssa.Alloc)
 					if !isAl {
-						return nil, 0, false
+						return nil, 0, nil, false
 					}
 					for _, r3 := range *cl.Referrers() {
 						fa, isFA := r3.(*ssa.FieldAddr)
@@ -374,20 +420,20 @@ func literalTableRows(key ssa.Value) (rows []map[int]ssa.Value, kf int, ok bool)
 		case *ssa.Slice:
 			// the slice the loop ranges over
 		default:
-			return nil, 0, false
+			return nil, 0, nil, false
 		}
 	}
 	if int64(len(byRow)) != at.Len() || len(byRow) == 0 {
-		return nil, 0, false
+		return nil, 0, nil, false
 	}
 	for j := int64(0); j < at.Len(); j++ {
 		row, okr := byRow[j]
 		if !okr || row[kf] == nil {
-			return nil, 0, false
+			return nil, 0, nil, false
 		}
 		rows = append(rows, row)
 	}
-	return rows, kf, true
+	return rows, kf, al, true
 }
 
 // extractGobHelperCalls: one gob write site per call of a helper that stores under a key parameter.
@@ -1125,6 +1171,13 @@ func (t *tables) keysOf(v ssa.Value, seen map[ssa.Value]bool, depth int, out *[]
 		if isGobMap(x.X.Type()) {
 			if k, ok := constString(x.Index); ok {
 				*gobKeys = append(*gobKeys, k)
+			} else if rows, kf, table, isRow := literalTableRowsOf(x.Index); isRow && t.rowCtx[table] > 0 {
+				// mm[row.key] while following the value handed to the same row's setter: that row's key
+				if k, ok := constString(rows[t.rowCtx[table]-1][kf]); ok {
+					*gobKeys = append(*gobKeys, k)
+				} else {
+					*gobKeys = append(*gobKeys, "<opaque>")
+				}
 			} else {
 				*gobKeys = append(*gobKeys, "<opaque>")
 			}
@@ -1185,6 +1238,17 @@ func (t *tables) keysOf(v ssa.Value, seen map[ssa.Value]bool, depth int, out *[]
 			t.keysOf(s.Val, seen, depth+1, out, gobKeys)
 		}
 		t.keysThroughAddress(x, seen, depth, out, gobKeys)
+	case *ssa.Parameter:
+		// the parameter of a setter closure kept in a row of a literal table ({key, func(v T) { x.F = v }}) and called
+		// through the ranged row (row.set(dec(mm[row.key]))): what the call hands over, read with that row's key
+		for _, ra := range rowSetterArgs(x) {
+			if t.rowCtx == nil {
+				t.rowCtx = map[*ssa.Alloc]int{}
+			}
+			t.rowCtx[ra.table] = ra.row + 1
+			t.keysOf(ra.arg, seen, depth+1, out, gobKeys)
+			delete(t.rowCtx, ra.table)
+		}
 	}
 }
 
